@@ -25,7 +25,7 @@ ASSUMPTIONS = ['max_fragment_size >= distance between a read and its DS site (th
                'get_binned_counts applies its documented default filter (read 1, not duplicate, not qc-fail, DS present) without MAPQ / mp']
 MIN_NONTRIVIAL = {'quick': 150, 'thorough': 8000}
 REQUIRED_MONITORS = ['multibam:count_runs', 'pipeline:count_runs', 'ret:obtain_counts', 'ret:get_binned_counts', 'oracle:matrix_cells_compared', 'splits:compared', 'lib:non_proper_pairs',
-                     'lib:sites_on_job_boundary', 'lib:reads_with_site_0', 'history:shared_options_dict_rounds']
+                     'lib:sites_on_job_boundary', 'lib:reads_with_site_0', 'history:shared_options_dict_rounds', 'genomic_bins:count_runs']
 SHARD_TIMEOUT = {'quick': 900, 'thorough': 5400}
 
 
@@ -38,7 +38,64 @@ def gen_cases(tier, seed):
     # several BAM files handed to one generate_commands / obtain_counts call (supported: alignments_path may be a list)
     for j in range(10 if tier == 'quick' else 200):
         cases.append({'kind': 'multibam', 'j': j, 'seed': seed})
+    # chromosome-scale contigs with the bin sizes the counting tools are used with (100 kb .. 1 Mb, also 300 / 400 kb)
+    for j in range(8 if tier == 'quick' else 160):
+        cases.append({'kind': 'genomic_bins', 'j': j, 'seed': seed})
     return cases
+
+
+def run_genomic_bins_case(case):
+    from singlecellmultiomics.bamProcessing import bamBinCounts as bbc
+    acc = Acc()
+    r = rng(case['seed'], 'C12', 'genomic_bins', case['j'])
+    bin_size = [300_000, 400_000, 250_000, 1_000_000, 100_000, 300_000, 700_000, 150_000][case['j'] % 8]
+    contigs = [('chr1', r.choice([2_400_000, 3_100_000, 5_050_000]) + r.randint(0, 5000)), ('chr2', r.choice([900_000, 1_300_000, 2_000_001]))]
+    recs, expect = [], Counter()
+    k = 0
+    for tid, (name, ln) in enumerate(contigs):
+        sites = [r.randrange(0, ln) for _ in range(40)]
+        # sites on both sides of every multiple of 100 kb / of the bin size / of 1 Mb, for the same cell
+        for edge in set(list(range(bin_size, ln, bin_size)) + list(range(1_000_000, ln, 1_000_000)) + list(range(500_000, ln, 500_000))):
+            sites += [edge - r.randint(1, 60_000), edge - 1, edge, edge + r.randint(1, 60_000)]
+        for site in sites:
+            site = min(max(site, 0), ln - 1)
+            cell = f'LIB_{r.randint(1, 2)}'
+            pos = min(site, ln - 31)
+            recs.append({'name': f'g{k}', 'flag': 64, 'tid': tid, 'pos': pos, 'mapq': 60, 'cigar': '30M', 'seq': 'A' * 30, 'qual': [30] * 30, 'tags': {'SM': cell, 'DS': site}})
+            k += 1
+            b0 = (site // bin_size) * bin_size
+            expect[(name, b0, min(b0 + bin_size, ln), cell)] += 1
+    with Scratch('c12g') as dd:
+        bam = write_bam(os.path.join(dd, 'big.bam'), contigs, recs)
+        first = None
+        for bpj in (1, 2, 3, 50):
+            threads = r.choice([1, 2, 4])
+            cmds = list(bbc.generate_commands(bam, bin_size=bin_size, bins_per_job=bpj, min_mq=20, max_fragment_size=1000, key_tags=None, dedup=True, kwargs={}))
+            try:
+                with contextlib.redirect_stdout(io.StringIO()):
+                    res = bbc.obtain_counts(cmds, reference=None, live_update=False, threads=threads)
+            except Exception as ex:
+                acc.violate('obtain_counts-raised:' + type(ex).__name__, f'obtain_counts raised {ex!r} (bin {bin_size}, bins_per_job={bpj})', {'bin_size': bin_size})
+                continue
+            acc.evals += 1
+            acc.count('genomic_bins:count_runs')
+            got = Counter()
+            for bin_id, sd in res.items():
+                for sample, n in sd.items():
+                    if n:
+                        got[tuple(bin_id) + (sample,)] += n
+            acc.count('oracle:matrix_cells_compared', len(set(got) | set(expect)))
+            if got != expect:
+                miss, extra = expect - got, got - expect
+                acc.violate('genomic-bins-count-differs', f'bin {bin_size}, bins_per_job {bpj}, threads {threads}, contigs {contigs}: total {sum(got.values())} expected '
+                                                          f'{sum(expect.values())}; missing {list(miss.items())[:3]} extra {list(extra.items())[:3]}',
+                            {'bin_size': bin_size, 'bins_per_job': bpj, 'threads': threads, 'contigs': contigs})
+            if first is not None and got != first:
+                acc.violate('matrix-depends-on-job-split', f'chromosome-scale contigs, bin {bin_size}: bins_per_job={bpj} differs from bins_per_job=1', {'bin_size': bin_size})
+            first = first if first is not None else got
+            acc.sigs.add(f"genomic/{case['j']}/{bpj}")
+        acc.sample = {'genomic_bins': {'bin_size': bin_size, 'contigs': contigs, 'expected_total': sum(expect.values())}}
+    return acc
 
 
 def run_multibam_case(case):
@@ -175,6 +232,8 @@ def run_case(case):
         return run_pipeline_case(case)
     if case.get('kind') == 'multibam':
         return run_multibam_case(case)
+    if case.get('kind') == 'genomic_bins':
+        return run_genomic_bins_case(case)
     import pysam
     from singlecellmultiomics.bamProcessing import bamBinCounts as bbc
     acc = Acc()
@@ -184,6 +243,10 @@ def run_case(case):
     D = r.choice([0, 5, 40, mfs])      # a site may be as far from its read as the fetch margin allows, in either direction
     min_mq = r.choice([0, 20, 50])
     contigs = [(f'chr{j + 1}', r.choice([2000, 5000, 12000]) + r.randint(0, bin_size)) for j in range(r.randint(1, 3))]
+    if case['i'] % 4 == 3:
+        # contig names with the characters region strings are made of
+        contigs[-1] = (r.choice(['HLA-A*01:01', 'chrUn_KI270302v1', 'NC_000001.11', 'gi|9626243|ref|NC_001416.1|']), contigs[-1][1])
+        acc.count('lib:contig_name_with_separator_characters')
     cells = [f'LIB_{j}' for j in range(1, r.randint(1, 4) + 1)]
     bpj_all = sorted(set([1, 2, 3, 5, 10, max(1, max(l for _, l in contigs) // bin_size + 1)]))
     boundaries = [bin_size * b for b in bpj_all]
